@@ -5,19 +5,10 @@
    satisfy json_ok (no floats, unique keys, scalar code points).
    Corollaries of C01 / C03 / C07 in which no JSON hypothesis remains. *)
 From Coq Require Import Lia ZifyBool.
-From Model Require Import Json Jws.
+From Model Require Import Json Jws JwsJson.
 From Gen Require Import Tables.
 From Proofs Require Import B64Proofs IntCodecProofs JsonProofs JwsProofs C01Proofs C03Proofs.
 Open Scope N_scope.
-
-Definition g_loads (b : bytes) : res pv :=
-  match Json.json_loads b with
-  | POk v => Ok v
-  | PErr => Err EValue
-  | PUnsup => Err EOracleMiss        (* floats, NaN: outside the Gallina fragment *)
-  end.
-Definition g_dumps (v : pv) : bytes := json_print v.
-Definition g_hok (h : list (str * pv)) : bool := json_ok (PDict h).
 
 Lemma g_json_rt : forall h, g_hok h = true ->
   g_loads (g_dumps (PDict h)) = Ok (PDict h) /\
